@@ -9,6 +9,8 @@ for ever, keeps a dead successor, or never re-admits a live one after a disturba
     timer that will expire;
  b  the timers themselves: the token-lost handler gives up (returns None) only under `now - last activity < token_lost_timeout` and
     claims the token (transition) on every other path; the slot timer compares `now` with last activity + slot time;
+ b' the silence timers are re-armed only by NEW bus activity: the activity marker is refreshed when more bytes are pending than at the
+    previous poll, not while stale bytes merely sit in the receive buffer (imported C01 b.sync-pause);
  c  the claim race resolves: the token-lost time-out is staggered by the station address (imported C01 d.constants);
  d  stations that are gone are removed after a bounded number of unanswered passes, never one that was heard (imported C11 c.supervision);
  e  stations that are online are (re-)admitted: the GAP sweep reaches every GAP address within a bounded number of token visits and a
@@ -131,7 +133,7 @@ def check(ctx):
     check_timed_waits(ctx, P)
     check_timers(ctx, P)
     from rules import C01, C11, C12
-    rule.import_clauses(ctx, "C01", C01.check, clauses=("d.constants", "g.rx"), as_clause="c.claim-race+f.rejoin")
+    rule.import_clauses(ctx, "C01", C01.check, clauses=("b.sync-pause", "d.constants", "g.rx"), as_clause="c.claim-race+f.rejoin+b.rearm")
     rule.import_clauses(ctx, "C11", C11.check, clauses=("c.supervision", "e.alone"), as_clause="d.removal")
     rule.import_clauses(ctx, "C12", C12.check, clauses=("a.postcondition", "a'.provenance", "c.one-poll", "d.wait", "d.truthful", "e.reply"), as_clause="e.readmission")
     ctx.assume("decides station-local recovery conditions of ONE station (necessary conditions); bounded-time recovery of a ring of several "
